@@ -208,6 +208,9 @@ def build_traces(path, tier, seed):
             n = int(2.0 / dt) + 2
         if i % 3 == 1:          # the number of samples is an exact multiple of the samples per second (a last, incomplete second)
             n = min(4000, pps * int(max(3, round(secs))))
+        if dt == 0.01 and (i // len(CAVDP_DTS)) < 4:
+            # lengths for which fl(npts * dt) / dt exceeds npts (a time axis rebuilt as arange(0, npts * dt, dt) has one sample too many)
+            n = [201, 222, 247, 203][(i // len(CAVDP_DTS)) % 4]
         kind = i % 4
         if kind == 0:       # everything below the gate
             a = rng.uniform(-0.2, 0.2, size=n)
